@@ -398,6 +398,8 @@ def c09(ev, tier, seed):
                "specification predicts, the result of set_stream, and the is_writeable() samples.")
     conn_model(ev, "C09", seed, "reads-b24", 24, ["reads"], maxcuts=2)
     conn_model(ev, "C09", seed, "reads-pend-q", 24, ["reads"], spurious=True, maxcuts=1, maxpend=1)
+    # the writeable flag as the handler sees it when a read fails half-way (EOF at every inbound offset)
+    conn_model(ev, "C09", seed, "reads-eof", 24, ["reads"], faults=("eof",), maxcuts=0)
     conn_traces(ev, "C09", seed + 1, 400 if tier == "thorough" else 60, sizes=(24, 64, 8192) if tier == "thorough" else (32, 8192))
     if tier == "thorough":
         conn_model(ev, "C09", seed, "reads-b32", 32, ["reads", "basic"], maxcuts=3)
@@ -433,6 +435,8 @@ def c12(ev, tier, seed):
                "preamble (handler invocation count and requests equal the specification's), and that a waiting handler receives the "
                "predicted error kind instead of a short read.")
     conn_model(ev, "C12", seed, "faults-b24", 24, ["basic"], faults=("eof", "rerr", "werr", "wzero"), maxcuts=1)
+    # faults on the reply-flushing paths: scenarios with management records mid-stream and behind unread input
+    conn_model(ev, "C12", seed, "faults-replies", 32, ["reads", "query"], faults=("werr", "wzero", "eof"), maxcuts=0)
     conn_traces(ev, "C12", seed + 3, 600 if tier == "thorough" else 80)
     if tier == "thorough":
         conn_model(ev, "C12", seed, "faults-b32", 32, ["basic", "reads", "abort"], faults=("eof", "rerr", "werr", "wzero"), maxcuts=1)
